@@ -792,4 +792,6 @@ WITNESSES = [
     {"id": "C02.w16-del_elem-shifts-from-the-end", "rule": "C02.R2", "file": TP,
      "old": "\tif (index != data->len - 1) {\n\t\tfor (unsigned int i = index; i < data->len - 1; i++)\n\t\t\tdata->ary[i] = data->ary[i + 1];\n\t}",
      "new": "\tfor (unsigned int i = data->len - 1; i > index; i--)\n\t\tdata->ary[i - 1] = data->ary[i];"},
+    {"id": "C02.w17-ipv6-equality-skips-the-third-word", "rule": "C02.R1", "file": "rtrlib/lib/ipv6.c",
+     "old": "a->addr[1] == b->addr[1] && a->addr[2] == b->addr[2] &&", "new": "a->addr[1] == b->addr[1] && a->addr[1] == b->addr[1] &&"},
 ]
